@@ -383,7 +383,7 @@ func TestVerifC07Enc(t *testing.T) {
 	}
 	maxLen, maxSegs := 4, 3
 	if kit.Thorough() {
-		maxLen = 5
+		maxLen = 6
 	}
 	item := 0
 	types := []struct {
